@@ -16,6 +16,7 @@ CONNECT, DISCONNECT, EVENT, ACK, CONNECT_ERROR, BINARY_EVENT, BINARY_ACK = range
 
 SIG_F8 = 'loss-inside-connect-window'
 SIG_F8B = 'disconnect-inside-connect-window'
+SIG_F9 = 'root-refused-nowait-stale-namespaces'
 
 
 # ------------------------------------------------------------------ replay encoding of values
@@ -58,7 +59,8 @@ def gen_ret(rng):
     if r < 0.25:
         return ('none',)
     if r < 0.6:
-        return ('one', G.gen_value(rng, 2, 0.15))
+        v = G.gen_value(rng, 2, 0.15)
+        return ('none',) if v is None else ('one', v)      # returning None *is* "no value"
     if r < 0.8:
         return ('tuple', [G.gen_value(rng, 1, 0.15) for _ in range(rng.randint(0, 3))])
     return ('echo',)
@@ -331,7 +333,10 @@ def canon_model(ans):
         elif k == 'contained':
             out.append(['contained'])
         elif k == 'ret':
-            out.append(['ret', json.dumps(o['data'])])
+            d = o['data']
+            if d == {'one': None}:
+                d = {'none': True}       # Python has one None: "returned None" and "returned nothing"
+            out.append(['ret', json.dumps(d)])
         elif k == 'exc':
             out.append(['exc', o['e']])
     return out
@@ -682,7 +687,9 @@ class HistoryGen:
             elif len(ops) > 1 and rng.random() < 0.15:
                 # client API calls between the frames of a binary packet
                 cut = rng.randint(1, len(ops) - 1)
-                ops = ops[:cut] + [self.op_emit(rng.random() < 0.8)] + ops[cut:]
+                mid = self.op_emit(rng.random() < 0.8)
+                mid['reacts'] = []      # the server is in the middle of its own packet
+                ops = ops[:cut] + [mid] + ops[cut:]
             return ops
         if r < wts[3]:
             return [{'op': 'disconnect'}]
@@ -763,7 +770,8 @@ class Oracle:
         self.v = View()
         self.fail = []              # (clause, text, op index)
         self.known = {}             # signature -> text
-        self.lenient = False        # a namespace of this connection was refused with wait=False
+        self.dead = False           # the history left the quantifier (only shrink candidates do)
+        self.wait = True
         self.notifs = {}            # ns -> [connect notifications, disconnect notifications]
         self.stats = {}
         self.opi = -1
@@ -775,6 +783,8 @@ class Oracle:
 
     # ---- reporting
     def bad(self, clause, text):
+        if self.dead:
+            return
         if self.v.region:
             self.known.setdefault(self.v.region, '%s (first consequence: %s: %s)' % (
                 REGION_TEXT[self.v.region], clause, text))
@@ -784,8 +794,13 @@ class Oracle:
     def stat(self, k):
         self.stats[k] = self.stats.get(k, 0) + 1
 
+    def leave(self, where):
+        """the history is outside the quantifier (the peer is not a conformant server)"""
+        self.dead = self.nonconformant = True
+        self.dead_at = where
+
     def strict(self):
-        return not self.lenient
+        return not self.dead
 
     def enter_region(self, sig):
         if not self.v.region:
@@ -805,7 +820,6 @@ class Oracle:
 
     def end_connection(self):
         ended = self.v.end()
-        self.lenient = False
         return ended
 
     def expect_disconnects(self, block, ended, reason, clause='C08.disconnect_once'):
@@ -845,7 +859,7 @@ class Oracle:
             if done is None:
                 v.pending = None
                 v.owed = 0
-                self.nonconformant = True
+                self.leave(855)
                 return
             if v.owed > 0:
                 if block:
@@ -856,7 +870,7 @@ class Oracle:
             ptype = EVENT if p.packet_type == BINARY_EVENT else ACK
             return self.on_packet(ptype, p.namespace or '/', p.id, p.data, block, win)
         if isinstance(f, (bytes, bytearray)):
-            self.nonconformant = True
+            self.leave(866)
             return
         p = decode_srv(f)
         if p.packet_type in (BINARY_EVENT, BINARY_ACK):
@@ -866,7 +880,7 @@ class Oracle:
                 if block:
                     self.bad('C09.invoke_once', 'a binary packet header alone caused %r' % (block,))
                 return
-            self.nonconformant = True
+            self.leave(876)
             return
         return self.on_packet(p.packet_type, p.namespace or '/', p.id, p.data, block, win)
 
@@ -888,13 +902,17 @@ class Oracle:
                 if block:
                     self.bad('C08.connect_handler_once', 'a repeated CONNECT %s caused %r' % (ns, block))
             else:
-                self.nonconformant = True
+                self.leave(898)
         elif ptype == CONNECT_ERROR:
             self.stat('srv.connect_error')
-            if ns in v.asked:
-                v.asked.remove(ns)
+            if ns not in v.asked:
+                self.leave(902)
+                self.dead = True
+                return
+            v.asked.remove(ns)
             v.partial = True
-            self.lenient = True     # partial acceptance: the state clauses speak about full acceptance only
+            if ns == '/' and not self.wait:
+                self.enter_region(SIG_F9)
             args = [] if data is None else list(data) if isinstance(data, (list, tuple)) else [data]
             exp = expect_invoke(reg, ns, 'connect_error', args)
             if invokes(block) != exp:
@@ -902,7 +920,7 @@ class Oracle:
                          % (ns, invokes(block), exp))
         elif ptype == DISCONNECT:
             if ns not in v.acc:
-                self.nonconformant = True
+                self.leave(916)
                 return
             self.stat('srv.disconnect' + ('.window' if win else ''))
             if win:
@@ -919,7 +937,7 @@ class Oracle:
             self.stat('srv.event' + ('.id' if pid is not None else ''))
             ok = isinstance(data, list) and data and isinstance(data[0], str)
             if not ok:
-                self.nonconformant = True
+                self.leave(933)
                 return
             r = resolve(reg, ns, data[0], data[1:])
             exp = expect_invoke(reg, ns, data[0], data[1:])
@@ -953,7 +971,7 @@ class Oracle:
                 v.acked.setdefault(ns, set()).add(pid)
                 args = list(data) if isinstance(data, list) else None
                 if args is None:
-                    self.nonconformant = True
+                    self.leave(967)
                     return
                 if kind == 'call':
                     self.call_args[tok] = args
@@ -968,12 +986,14 @@ class Oracle:
                     self.bad('C09.callback_at_most_once', 'callback %r invoked a second time' % (tok,))
                 self.fired.add(tok)
         else:
-            self.nonconformant = True
+            self.leave(982)
 
     # ---- one operation
     def step(self, op, rec):
         self.opi += 1
         self.nonconformant = False
+        if self.dead:
+            return
         v = self.v
         k = op['op']
         top, blocks, order = split_trace(rec['trace'])
@@ -1009,8 +1029,6 @@ class Oracle:
                 if self.strict() and (res != ['exc', 'BadNamespaceError'] or rec['trace']):
                     self.bad('C08.bad_namespace', '%s on %s (not connected): %r, trace %r; required '
                              'BadNamespaceError and nothing sent' % (k, ns, res, rec['trace']))
-                if res is not None and res[0] == 'ret' and self.lenient:
-                    pass
             else:
                 self.stat('emit.connected')
                 if res == ['exc', 'BadNamespaceError']:
@@ -1094,7 +1112,7 @@ class Oracle:
         v.up = True
         v.esid = op['outcome'][1]
         v.partial = False
-        self.lenient = False
+        self.wait = bool(op['wait'])
         # walk through the call: CONNECT packets at top level, reactions in blocks
         auth = op['auth']
         want_auth = auth['val'] or {}
@@ -1165,11 +1183,13 @@ class Oracle:
         v = self.v
         snap = rec['snap']
         if self.nonconformant:
-            self.lenient = True
+            self.dead = True
+        if self.dead:
+            return
         ns_map = dict((k, v_) for k, v_ in snap['namespaces'])
         # every connect notification of a fully accepted connection is matched by exactly one
         # disconnect notification, unless the namespace is still connected
-        if self.lenient or self.failed_connect:
+        if v.partial or self.failed_connect:
             self.balance = False
         if self.balance:
             for ns, (nc, nd) in self.notifs.items():
@@ -1190,7 +1210,7 @@ class Oracle:
             return
         if ns_map != v.acc:
             self.bad('C08.mirror', 'namespaces %r, the server has accepted and not ended %r' % (ns_map, v.acc))
-        if not v.asked and snap['connected'] != bool(v.acc):
+        if not v.asked and not v.partial and snap['connected'] != bool(v.acc):
             self.bad('C08.mirror', 'connected=%r with namespaces %r' % (snap['connected'], sorted(v.acc)))
         if snap['connected'] and snap['eio'] != 'connected':
             self.bad('C08.mirror', 'connected=True on a transport in state %r' % (snap['eio'],))
@@ -1204,6 +1224,7 @@ class Oracle:
 REGION_TEXT = {
     SIG_F8: 'transport lost inside the connect window',
     SIG_F8B: 'server DISCONNECT inside the connect window',
+    SIG_F9: "namespace '/' refused after connect(wait=False)",
 }
 
 
